@@ -44,7 +44,11 @@ func Group(services *fun.Iterator[*Service]) *Service {
 					ec.Add(s.Start(ctx))
 				}(services.Value())
 			}
-			wg.Wait(ctx)
+			// every member that was started has to be waited
+			// for: do not close the queue of waiters, not even
+			// when the context is canceled, before all of the
+			// (non-blocking) start operations have returned.
+			wg.Operation().Wait()
 			ec.Add(waiters.Close())
 
 			// the context the members were started with ends
